@@ -1826,7 +1826,14 @@ class Cap(object):
                     base.imprecise.add(x)
             if base.ret is not None and base.ret[0] == "i" and any(st.ret != base.ret for st in g[1:]):
                 x = fresh("mg")
+                vals_ = [st.ret[1] if (st.ret is not None and st.ret[0] == "i") else None for st in g]
                 base.ret = I(Lin.sym(x))
+                base.imprecise.add(x)
+                if all(v_ is not None for v_ in vals_):
+                    dif_ = [v_ - vals_[0] for v_ in vals_]
+                    if all(d_.is_const() for d_ in dif_):
+                        base.cons.append(Lin.sym(x) - vals_[0] - min(d_.c for d_ in dif_))
+                        base.cons.append(vals_[0] + max(d_.c for d_ in dif_) - Lin.sym(x))
             base.path = base.path[:4] + ["<%d paths merged>" % len(g)]
             out.append(base)
         return out
